@@ -201,6 +201,95 @@ _L = "self.source_layers"
 _IDX = "self.default_source_idx"
 _M = "self.glyph_mutators"
 
+# ---- the heap, as far as a cached Variator reaches into it, as explicit maps (arguments of the named predicate below) -----------------
+_HMAPS = {
+    "h_vmasters": ("Variator", "masters", List(Ref("MathObj")), lambda v: list(v.masters)),
+    "h_vmodel": ("Variator", "model", Ref("VariationModel"), lambda v: v.model),
+    "h_vfiled": ("Variator", "location_to_master", Dict(KEY, Ref("MathObj")), lambda v: dict(v.location_to_master)),
+    "h_vwitness": ("Variator", "witness", Map(KEY, INT), lambda v: c19._rt_witness(v)),
+    "h_locations": ("VariationModel", "origLocations", List(Ref("Location")), lambda m: list(m.origLocations)),
+    "h_axisorder": ("VariationModel", "axisOrder", List(STR), lambda m: list(m.axisOrder)),
+    "h_pairs": ("Location", "pairs", KEY, lambda d: list(d.items())),
+    "h_data": ("MathObj", "data", MDATA, math_snapshot),
+    "h_kind": ("MathObj", "kind", INT, c19._math_kind),
+}
+
+
+class _LiveMap:
+    """run-time value of a heap map: object -> f(object), read on demand"""
+
+    def __init__(self, f):
+        self.f = f
+
+    def __getitem__(self, o):
+        from pyvc.rt import canon
+
+        return self.f(canon(o))
+
+    def __deepcopy__(self, memo):
+        return self
+
+
+def _hmap(cname, field, vty):
+    return lambda ex, st, self: Val(Map(Ref(cname), vty), ex.field_array(st, cname, field))
+
+
+for _k, (_c, _f, _t, _nat) in _HMAPS.items():
+    CLASSES["Instantiator"].derived[_k] = _hmap(_c, _f, _t)
+    CLASSES["Instantiator"].views[_k] = (lambda nat: (lambda o: _LiveMap(nat)))(_nat)
+
+from .c19 import items_of, lockey, mathglyph_of, nhas, norm_pairs, src_data  # noqa: E402,F401  (used by the predicate, natively and when it is unfolded)
+
+
+# Written with a never-taken recursive call (`z` is always 0) so that the engine treats it as a NAMED predicate: applied to a bound name it is
+# one atom (the entries of the other glyphs are carried through unchanged, at no cost), applied to the glyph at hand it is given its definition.
+@specfn(
+    BOOL, V=Ref("Variator"), n=STR, L=LAYERS, idx=INT, bounds=BOUNDS, axis_order=List(STR),
+    HVM=Map(Ref("Variator"), List(Ref("MathObj"))), HVMOD=Map(Ref("Variator"), Ref("VariationModel")), HVF=Map(Ref("Variator"), Dict(KEY, Ref("MathObj"))),
+    HVW=Map(Ref("Variator"), Map(KEY, INT)), HLOC=Map(Ref("VariationModel"), List(Ref("Location"))), HAXO=Map(Ref("VariationModel"), List(STR)),
+    HP=Map(Ref("Location"), KEY), HD=Map(Ref("MathObj"), MDATA), HK=Map(Ref("MathObj"), INT), z=INT,
+)
+def variator_ok(V, n, L, idx, bounds, axis_order, HVM, HVMOD, HVF, HVW, HLOC, HAXO, HP, HD, HK, z):
+    """V is the Variator that Variator.from_masters(collect_glyph_masters(L, n, bounds, idx), axis_order) builds from the source layers L:
+    MathGlyphs only; the model over the masters' locations in the given axis order; every master filed under the key of its own location and
+    every key leading to a master at that location; and, unless empty masters are dropped for this glyph, exactly one master per layer that
+    has the glyph, in source order, wrapping THAT glyph at ITS normalized location."""
+    if z > 0:
+        return variator_ok(V, n, L, idx, bounds, axis_order, HVM, HVMOD, HVF, HVW, HLOC, HAXO, HP, HD, HK, z - 1)
+    masters = HVM[V]
+    locs = HLOC[HVMOD[V]]
+    filed = HVF[V]
+    w = HVW[V]
+    return (
+        has_glyph(L, idx, n)
+        and len(masters) >= 1
+        and len(locs) == len(masters)
+        and HAXO[HVMOD[V]] == axis_order
+        and all(HK[masters[k]] == 0 for k in range(len(masters)))
+        and all(HK[filed[k]] == 0 for k in filed)
+        and all(lockey(HP[locs[b]]) in filed for b in range(len(masters)))
+        and all(0 <= w[k] and w[k] < len(masters) and lockey(HP[locs[w[k]]]) == k and filed[k] == masters[w[k]] for k in filed)
+        and (
+            drops(L, idx, n)
+            or (
+                len(masters) == nhas(L, n, len(L))
+                and all(
+                    (not has_glyph(L, a, n))
+                    or (
+                        0 <= nhas(L, n, a)
+                        and nhas(L, n, a) < len(masters)
+                        and HD[masters[nhas(L, n, a)]] == mathglyph_of(src_data(L[a][1][n]))
+                        and HP[locs[nhas(L, n, a)]] == norm_pairs(items_of(L[a][0]), bounds)
+                    )
+                    for a in range(len(L))
+                )
+            )
+        )
+    )
+
+
+_VOK = "variator_ok({V}, {n}, self.source_layers, self.default_source_idx, self.axis_bounds, self.axis_order, " + ", ".join("self." + k for k in _HMAPS) + ", 0)"
+
 
 def _nh(a, n="n"):
     return f"nhas({_L}, {n}, {a})"
@@ -212,24 +301,13 @@ def cache_ok(n_domain="self.cached"):
     CURRENT source layers (so that a cache hit and a rebuild cannot differ)."""
     V = f"{_M}[n]"
     return {
-        # only glyphs of the default source are cached
-        "cache.default-has-glyph": f"all(has_glyph({_L}, {_IDX}, n) for n in {n_domain})",
         # everything reachable from the cache exists (separates it from objects made later)
         "cache.alive": f"all(allocated({V}) and allocated({V}.model) for n in {n_domain})",
         "cache.alive-masters": f"all(all(allocated(m) for m in {V}.masters) for n in {n_domain})",
         "cache.alive-locations": f"all(all(allocated(l) for l in {V}.model.origLocations) for n in {n_domain})",
         "cache.alive-filed": f"all(all(allocated({V}.location_to_master[k]) for k in {V}.location_to_master) for n in {n_domain})",
-        "cache.math-glyphs": f"all(all({V}.masters[k].kind == 0 for k in range(len({V}.masters))) and all({V}.location_to_master[k].kind == 0 for k in {V}.location_to_master) for n in {n_domain})",
-        "cache.axis-order": f"all({V}.model.axisOrder == self.axis_order and len({V}.model.origLocations) == len({V}.masters) and len({V}.masters) >= 1 for n in {n_domain})",
-        # the master-location shortcut of instance_at: every master is filed under the key of its own location, every key leads to a master at that location
-        "cache.keys-cover": f"all(all(lockey(items_of({V}.model.origLocations[b])) in {V}.location_to_master for b in range(len({V}.masters))) for n in {n_domain})",
-        "cache.keys-sound": f"all(all(0 <= {V}.witness[k] and {V}.witness[k] < len({V}.masters) and lockey(items_of({V}.model.origLocations[{V}.witness[k]])) == k"
-        f" and {V}.location_to_master[k] == {V}.masters[{V}.witness[k]] for k in {V}.location_to_master) for n in {n_domain})",
-        # unless empty masters are dropped: one master per layer that has the glyph, in source order, wrapping THAT glyph at ITS normalized location
-        "cache.pinned": f"all(implies(not drops({_L}, {_IDX}, n), len({V}.masters) == {_nh(f'len({_L})')} and all(implies(has_glyph({_L}, a, n),"
-        f" 0 <= {_nh('a')} and {_nh('a')} < len({V}.masters)"
-        f" and {V}.masters[{_nh('a')}].data == mathglyph_of(src_data({_L}[a][1][n]))"
-        f" and items_of({V}.model.origLocations[{_nh('a')}]) == norm_pairs(items_of({_L}[a][0]), self.axis_bounds)) for a in range(len({_L})))) for n in {n_domain})",
+        # every entry is the Variator of its glyph over the current source layers
+        "cache.built-from-current-sources": "all(" + _VOK.format(V=V, n="n") + f" for n in {n_domain})",
     }
 
 
@@ -271,6 +349,21 @@ contract(
     modifies=["Instantiator.glyph_mutators", "OutGlyph.geometry", "OutGlyph.unicodes"],
     globals={**_ACCESSORS},
     merge_branches=False,
+    # stepping stones on the cache-miss path: what the two callees say about the NEW Variator, in the vocabulary of the cache invariant
+    hints={
+        "glyph_mutator = self.glyph_mutators[glyph_name] = Variator.from_masters(sources, self.axis_order)": [
+            "all(allocated(m) for m in glyph_mutator.masters) and all(allocated(l) for l in glyph_mutator.model.origLocations)",
+            "all(glyph_mutator.masters[k].kind == 0 for k in range(len(glyph_mutator.masters)))",
+            "all(glyph_mutator.location_to_master[k].kind == 0 for k in glyph_mutator.location_to_master)",
+            f"implies(not drops({_L}, {_IDX}, glyph_name), len(glyph_mutator.masters) == {_nh(f'len({_L})', 'glyph_name')} and all(implies(has_glyph({_L}, a, glyph_name),"
+            f" 0 <= {_nh('a', 'glyph_name')} and {_nh('a', 'glyph_name')} < len(glyph_mutator.masters)"
+            f" and glyph_mutator.masters[{_nh('a', 'glyph_name')}].data == mathglyph_of(src_data({_L}[a][1][glyph_name]))"
+            f" and items_of(glyph_mutator.model.origLocations[{_nh('a', 'glyph_name')}]) == norm_pairs(items_of({_L}[a][0]), self.axis_bounds)) for a in range(len({_L}))))",
+            _VOK.format(V="glyph_mutator", n="glyph_name"),
+        ],
+        # cache hit: the invariant, for the glyph at hand
+        "glyph_mutator = self.glyph_mutators.get(glyph_name)": [f"implies(glyph_name in self.cached, " + _VOK.format(V=_V, n="glyph_name") + ")"],
+    },
 )
 
 
